@@ -458,6 +458,12 @@ def header_fields(F, b, v, parent):
 
 
 def r3_helpers(ctx, A):
+    from rules import c01
+    c01.write_results_propagate(ctx, A, "R3-helper-agreement", want_async=True)
+    _r3_helpers(ctx, A)
+
+
+def _r3_helpers(ctx, A):
     for nm in ("reply_ok", "do_reply_error", "handle_attr_result"):
         s = [x for x in A.fns.values() if x.name == nm and x.self_adt == common.SRVCTX and x.kind == "assoc"]
         a = [x for x in A.fns.values() if x.name == "async_" + nm and x.self_adt == common.SRVCTX and x.kind == "assoc"]
